@@ -570,9 +570,13 @@ def checkC16 (obs : String) : Option String :=
         let displaysElsewhere := (p.bindings.filter (fun b => b.1 ≠ cl!"%lf3:frame:2")).any fun (_, ini) =>
           (Scheme.symbols ini).any (· = cl!"display")
         let bodyDisplays := (Scheme.symbols p.body).any (· = cl!"display")
+        let rawPrinter := p.bindings.any fun (_, ini) => (Scheme.symbols ini).any (· = cl!"make-printer")
+        let rawBody := (Scheme.symbols p.body).any fun s => s = cl!"print-file-fid" || s = cl!"print-relative-path"
         if !frameOk then some "frame-procedure-not-well-locked"
         else if !mutexOk then some "frame-mutex-not-a-mutex"
         else if displaysElsewhere || bodyDisplays then some "write-outside-the-frame-procedure"
+        else if rawPrinter then some "unframed-printer-in-framed-mode"
+        else if rawBody then some "unframed-write-in-framed-mode"
         else none
       else
         -- plain: every printer is (make-printer port mutex term) with the mutex created for that port
